@@ -34,7 +34,21 @@ def run(ctx):
     from vlib import svcfam
     sr, sfiles = svcfam.scripts(ctx, drop=True)
     dsum = svcfam.run_rpc(ctx, sfiles[1:], 1500 if ctx.quick() else 20000)
+    # the client against a server that spoils the handshake or the stream at any step (scripts of MpxDial.tla)
+    from vlib import dialfam
+    xr, xsum, xmism = dialfam.run_scripts(ctx, 6 if ctx.quick() else 7)
+    for m in xmism:
+        ctx.violation("dial:" + m["sig"], "%s | script: %s" % (m["detail"], m["script"]), m)
     ctx.coverage = {
+        "client_against_scripted_servers": {"model": "MpxDial.tla", "scripts_replayed": xsum["scripts"], "steps": xsum["steps"],
+                                            "spec_states": xr.distinct,
+                                            "rule": "every sequence of server steps (protocol line good / foreign / padded / hang-up, connect response accepted / "
+                                                    "lz4 / refused / unknown version / unknown compression / another message / malformed / hang-up, then data, close, "
+                                                    "channels opened by the server, stray frames, eight kinds of hostile frames) interleaved with the client's "
+                                                    "Channel / Send / Receive calls up to the bound; after every step: a waiting Channel() has returned what the model "
+                                                    "says (OK only on an accepted connection), the client has closed a spoiled connection and written nothing more on it, "
+                                                    "Receive ends with a failure, the close listener has run once with the closed flag set; afterwards the same client "
+                                                    "completes an echo with a well-behaved server"},
         "rpc_calls_losing_their_connection": {"model": "SvcCall.tla", "executed": dsum["scripts"], "generated": dsum["of"],
                                               "rule": "no operation of either side hangs, the caller never gets OK unless its handler returned OK "
                                                       "before the loss (then with its bytes), and the on-demand client completes a call right afterwards"},
